@@ -258,7 +258,7 @@ func (sw *SnapshotWriter) saveHeader() error {
 	}
 	sh.HeaderChecksum = headerHash.Sum(nil)
 	data = pb.MustMarshal(&sh)
-	if uint64(len(data)) > HeaderSize-8 {
+	if uint64(len(data)) > HeaderSize-8-4 {
 		panic("snapshot header is too large")
 	}
 	lenbuf := make([]byte, 8)
@@ -267,6 +267,13 @@ func (sw *SnapshotWriter) saveHeader() error {
 		return err
 	}
 	if _, err := sw.file.WriteAt(data, 8); err != nil {
+		return err
+	}
+	// the crc32 of the marshaled header follows it, this is what validateHeader
+	// checks when reading the header back or validating a received first chunk
+	crc := newCRC32Hash()
+	fileutil.MustWrite(crc, data)
+	if _, err := sw.file.WriteAt(crc.Sum(nil), int64(8+len(data))); err != nil {
 		return err
 	}
 	return nil
